@@ -78,6 +78,21 @@ def _local_call(ctx: Ctx, c: Collector) -> None:
                     pr.append(f"the simulator's method is called (line {e.lineno}) inside the try whose `except {T.show(h.term[1])}` ends in a normal return: an exception of that kind "
                               "escaping from a plain method becomes a reply instead of aborting the run")
     c.add("local", LOCAL_SEND, "exceptions of a plain simulator method are not caught by the generator-protocol handler", VIOLATED if pr else DISCHARGED, "; ".join(sorted(set(pr))), fi.loc)
+    # the other half: every call that *drives* the generator (next(gen), gen.send(...)) is guarded by the handler of the
+    # generator protocol -- a generator-style method that finishes without yielding (nothing to ask mosaik this time) raises
+    # StopIteration at the very first next(); outside the try it escapes from the coroutine as a RuntimeError and the run dies
+    gens = {b.term[1] for b in s.of_kind("bind") if T.strip(b.term[2])[0] == "call" and T.strip(b.term[2])[1] in look}
+    gens |= {T.strip(b.term[2]) for b in s.of_kind("bind") if T.strip(b.term[2])[0] == "call" and T.strip(b.term[2])[1] in look}
+    drives = [e for e in s.of_kind("call") if (e.term[1] == T.glob("next") and e.term[2] and T.strip(e.term[2][0]) in gens)
+              or (e.term[1][0] == "attr" and e.term[1][2] in ("send", "__next__") and T.strip(e.term[1][1]) in gens)]
+    pr2 = []
+    stop_tries = {tid for h in s.of_kind("test") if h.term[0] == "except" and "StopIteration" in T.show(h.term[1]) for tid, role in h.tries if role == "handler"}
+    for e in drives:
+        if not any(role == "body" and tid in stop_tries for tid, role in e.tries):
+            pr2.append(f"{T.show(e.term)[:40]} (line {e.lineno}) drives the simulator's generator outside the try that handles StopIteration: a generator-style method that "
+                       "returns without yielding ends the run with a RuntimeError instead of delivering its return value")
+    if drives:
+        c.add("local", LOCAL_SEND, "every next()/send() on the simulator's generator is guarded by the StopIteration handler", VIOLATED if pr2 else DISCHARGED, "; ".join(sorted(set(pr2))), fi.loc)
 
 
 def _step(ctx: Ctx, c: Collector) -> None:
